@@ -25,6 +25,7 @@ fn main() {
                 (p[0].to_string(), p[1].to_string(), p[2].parse::<u64>().unwrap_or(0))
             });
             let seed = args.num("seed", 1);
+            rigapi::set_borrow_tracking(args.flag("sb"));
             let mut ctx = drive::Ctx {
                 kinds: props::kinds_for(&prop),
                 prop,
